@@ -87,6 +87,8 @@ pub trait Sut: Sized + Clone {
     /// an arbitrary (possibly ill-formed) op
     fn raw(a: &mut Args) -> Self::Op;
     fn apply_logged(&mut self, op: &Self::Op, t: &mut Out);
+    /// log validate_op of an op without applying it
+    fn validate_only(&self, _op: &Self::Op, _t: &mut Out) {}
     /// apply without logging (used to rebuild the canonical state of a knowledge set)
     fn apply_quiet(&mut self, op: &Self::Op);
     /// structural equality as the crate defines it (==)
@@ -206,12 +208,26 @@ fn run_case<S: Sut>(id: &str, disc: u64, cmds: &[Vec<u64>], t: &mut Out) {
                         know.push(BTreeSet::new());
                     }
                     t.line(&format!("(ev spawn {} {})", reps.len() - 1, from));
+                    let nr = reps.len() - 1;
+                    t.line(&format!(
+                        "(obs {} (know{}) {})",
+                        nr,
+                        know[nr].iter().map(|d| format!(" {}", d)).collect::<String>(),
+                        reps[nr].sx()
+                    ));
                 }
             }
             K_EXTRA => {
                 let r2 = (a.next() as usize) % reps.len();
                 let o = reps[r2].clone();
                 reps[r].extra(&o, &mut a, t);
+                if !log.is_empty() {
+                    // validate_op of an arbitrary op of the history (possibly out of order), not applied
+                    let i = a.next() as usize % log.len();
+                    t.line(&format!("(pre probe {} {} 0)", r, i));
+                    reps[r].validate_only(&log[i].op, t);
+                    t.line("(pre none)");
+                }
             }
             K_LAWS => {
                 if S::HAS_MERGE {
